@@ -28,6 +28,9 @@ type call struct {
 	gate chan struct{} // closed by the client driver once the client script has finished
 	done chan struct{} // closed when the handler returns
 
+	phase  atomic.Int32 // 0 running, 1 blocked in recv, 2 blocked in wait, 3 returned
+	nrecvd atomic.Int32 // messages the handler has received so far
+
 	mu    sync.Mutex
 	log   []string
 	recvd []proto.Message // messages as the handler received them (handler's own objects)
@@ -110,6 +113,7 @@ func (c *call) abort(ctx context.Context) error {
 
 func (c *call) run(io_ sio) error {
 	defer close(c.done)
+	defer c.phase.Store(3)
 	ctx := io_.ctx()
 	for _, op := range c.ops {
 		if ctx.Err() != nil {
@@ -137,6 +141,7 @@ func (c *call) run(io_ sio) error {
 				c.mu.Unlock()
 			}
 		case 'W':
+			c.phase.Store(2)
 			select {
 			case <-ctx.Done():
 			case <-time.After(5 * time.Second):
@@ -144,7 +149,12 @@ func (c *call) run(io_ sio) error {
 			}
 			return c.abort(ctx)
 		case 'R':
+			c.phase.Store(1)
 			n, m, err := io_.recv()
+			c.phase.Store(0)
+			if err == nil {
+				c.nrecvd.Add(1)
+			}
 			if ctx.Err() != nil {
 				return c.abort(ctx)
 			}
